@@ -204,6 +204,9 @@ impl<Key, Value> CommandExecutor<Key, Value>
     }
 
     fn put<DeleteHook>(put_parameters: PutParameter<Key, Value, DeleteHook>) -> CommandStatus where DeleteHook: Fn(Key) {
+        if put_parameters.store.is_present(&put_parameters.key_description.clone_key()) {
+            return CommandStatus::Rejected(crate::cache::command::RejectionReason::KeyAlreadyExists);
+        }
         let status = put_parameters.admission_policy.maybe_add(
             put_parameters.key_description,
             put_parameters.delete_hook,
@@ -221,6 +224,9 @@ impl<Key, Value> CommandExecutor<Key, Value>
     }
 
     fn put_with_ttl<DeleteHook>(put_with_ttl_parameter: PutWithTTLParameter<Key, Value, DeleteHook>) -> CommandStatus where DeleteHook: Fn(Key) {
+        if put_with_ttl_parameter.put_parameter.store.is_present(&put_with_ttl_parameter.put_parameter.key_description.clone_key()) {
+            return CommandStatus::Rejected(crate::cache::command::RejectionReason::KeyAlreadyExists);
+        }
         let status = put_with_ttl_parameter.put_parameter.admission_policy.maybe_add(
             put_with_ttl_parameter.put_parameter.key_description,
             put_with_ttl_parameter.put_parameter.delete_hook,
